@@ -5,7 +5,7 @@ go 1.21
 replace (
 	github.com/NebulousLabs/go-upnp => github.com/lianxiangcloud/go-upnp v0.0.0-20190905032046-65768e0b268c
 	github.com/go-interpreter/wagon => github.com/xunleichain/wagon v0.5.3
-	github.com/lianxiangcloud/linkchain => /tmp/w7/wt
+	github.com/lianxiangcloud/linkchain => /repo
 	gopkg.in/sourcemap.v1 => github.com/go-sourcemap/sourcemap v1.0.5
 )
 
